@@ -9,7 +9,9 @@
        with res_lock:              (acquire)         result_queue.put(res)
            if res_done.is_set(): pass                res_done.set()
            elif worker_proc.is_alive():                                  (release)
-               terminate(); join(); put(timeout)  <process exits>
+               terminate(); join(grace)           <process exits>
+               if is_alive(): kill(); join()
+               put(timeout)
            else: put('task process died')
                                    (release)
 
@@ -28,22 +30,33 @@ Inductive pay := PayReturn | PayRaise | PayDie | PayHang.
    dispatcher's time-out report, its 'task process died' report *)
 Inductive rk := RReal0 | RReal1 | RTimeout | RDied | ROther.
 
-Inductive dpc := DStart | DJoin | DAcq | DIsSet | DAlive | DTerm | DJoin2 | DPutTimeout
-               | DPutDied | DRel | DEnd.
+(* how the task process reacts to SIGTERM (worker_proc.terminate()): it dies at
+   once, it dies some time later (SigDelay: the scheduler decides when -- before
+   or after the dispatcher's grace period expires), or never (handler / ignored).
+   SIGKILL (worker_proc.kill()) is always effective. *)
+Inductive sigr := SigNow | SigDelay | SigNever.
+
+Inductive dpc := DStart | DJoin | DAcq | DIsSet | DAlive | DTerm | DJoinG | DAlive2 | DKill | DJoin3
+               | DPutTimeout | DPutDied | DRel | DEnd.
 Inductive tpc := TNone | TFn | TAcq | TPut | TSet | TRel | TExit | TDead.
 
 Inductive rop := RoStart | RoJoin | RoAcquire | RoIsAlive (b : bool) | RoTerminate
                | RoPut (k : rk) | RoIsSet (b : bool) | RoSet | RoRelease | RoFn | RoExit
-               | RoExpire | RoOther.
+               | RoExpire | RoOther | RoKill | RoDie | RoExpire2.
 
-(* c_rep / c_kill are history flags (the task process queued its result / was
-   terminated by the dispatcher); no step reads them *)
+(* c_term: SIGTERM was delivered and the process has not died yet; c_exp2: the
+   grace period of join(timeout=5.0) expired.  c_rep / c_kill / c_bad are
+   history flags (the task process queued its result / the dispatcher set out
+   to kill it / the dispatcher reported a result while the task process still
+   existed); no step reads them *)
 Record cfg := mkCfg { c_d : dpc; c_t : tpc; c_lock : option party; c_done : bool;
-                      c_exp : bool; c_q : list rk; c_rep : bool; c_kill : bool }.
+                      c_exp : bool; c_q : list rk; c_rep : bool; c_kill : bool;
+                      c_term : bool; c_exp2 : bool; c_bad : bool }.
 
-Inductive choice := CD | CT | CX.
+(* CK: a process that reacts to SIGTERM with a delay dies now *)
+Inductive choice := CD | CT | CX | CK.
 
-Definition cinit : cfg := mkCfg DStart TNone None false false [] false false.
+Definition cinit : cfg := mkCfg DStart TNone None false false [] false false false false false.
 
 Definition t_dead (t : tpc) : bool := match t with TDead => true | _ => false end.
 Definition lock_free (l : option party) : bool := match l with None => true | Some _ => false end.
@@ -51,7 +64,8 @@ Definition lock_free (l : option party) : bool := match l with None => true | So
 Definition enabledD (timed : bool) (c : cfg) : bool :=
   match c_d c with
   | DJoin => t_dead (c_t c) || (timed && c_exp c)       (* join(timeout=tout) *)
-  | DJoin2 => t_dead (c_t c)                            (* join() after terminate() *)
+  | DJoinG => t_dead (c_t c) || c_exp2 c                (* join(timeout=5.0) after terminate() *)
+  | DJoin3 => t_dead (c_t c)                            (* join() after kill() *)
   | DAcq => lock_free (c_lock c)
   | DEnd => false
   | _ => true
@@ -65,78 +79,93 @@ Definition enabledT (p : pay) (c : cfg) : bool :=
   | _ => true
   end.
 
-Definition stepD (c : cfg) : cfg * rop :=
-  let '(mkCfg d t l dn e q rp kl) := c in
+Definition stepD (sg : sigr) (c : cfg) : cfg * rop :=
+  let '(mkCfg d t l dn e q rp kl tm e2 bd) := c in
+  let alive := negb (t_dead t) in
   match d with
-  | DStart => (mkCfg DJoin TFn l dn e q rp kl, RoStart)
-  | DJoin => (mkCfg DAcq t l dn e q rp kl, RoJoin)
-  | DAcq => (mkCfg DIsSet t (Some PD) dn e q rp kl, RoAcquire)
-  | DIsSet => (mkCfg (if dn then DRel else DAlive) t l dn e q rp kl, RoIsSet dn)
-  | DAlive => let a := negb (t_dead t) in
-              (mkCfg (if a then DTerm else DPutDied) t l dn e q rp kl, RoIsAlive a)
-  | DTerm => (mkCfg DJoin2 TDead l dn e q rp true, RoTerminate)
-  | DJoin2 => (mkCfg DPutTimeout t l dn e q rp kl, RoJoin)
-  | DPutTimeout => (mkCfg DRel t l dn e (q ++ [RTimeout]) rp kl, RoPut RTimeout)
-  | DPutDied => (mkCfg DRel t l dn e (q ++ [RDied]) rp kl, RoPut RDied)
-  | DRel => (mkCfg DEnd t None dn e q rp kl, RoRelease)
+  | DStart => (mkCfg DJoin TFn l dn e q rp kl tm e2 bd, RoStart)
+  | DJoin => (mkCfg DAcq t l dn e q rp kl tm e2 bd, RoJoin)
+  | DAcq => (mkCfg DIsSet t (Some PD) dn e q rp kl tm e2 bd, RoAcquire)
+  | DIsSet => (mkCfg (if dn then DRel else DAlive) t l dn e q rp kl tm e2 bd, RoIsSet dn)
+  | DAlive => (mkCfg (if alive then DTerm else DPutDied) t l dn e q rp kl tm e2 bd, RoIsAlive alive)
+  | DTerm =>
+      (mkCfg DJoinG (match sg with SigNow => TDead | _ => t end) l dn e q rp true
+             (match sg with SigDelay => alive | _ => false end) e2 bd, RoTerminate)
+  | DJoinG => (mkCfg DAlive2 t l dn e q rp kl tm e2 bd, RoJoin)
+  | DAlive2 => (mkCfg (if alive then DKill else DPutTimeout) t l dn e q rp kl tm e2 bd, RoIsAlive alive)
+  | DKill => (mkCfg DJoin3 TDead l dn e q rp kl false e2 bd, RoKill)
+  | DJoin3 => (mkCfg DPutTimeout t l dn e q rp kl tm e2 bd, RoJoin)
+  | DPutTimeout => (mkCfg DRel t l dn e (q ++ [RTimeout]) rp kl tm e2 (bd || alive), RoPut RTimeout)
+  | DPutDied => (mkCfg DRel t l dn e (q ++ [RDied]) rp kl tm e2 (bd || alive), RoPut RDied)
+  | DRel => (mkCfg DEnd t None dn e q rp kl tm e2 bd, RoRelease)
   | DEnd => (c, RoOther)
   end.
 
 Definition real_of (p : pay) : rk := match p with PayReturn => RReal0 | _ => RReal1 end.
 
 Definition stepT (p : pay) (c : cfg) : cfg * rop :=
-  let '(mkCfg d t l dn e q rp kl) := c in
+  let '(mkCfg d t l dn e q rp kl tm e2 bd) := c in
   match t with
-  | TFn => (mkCfg d (match p with PayDie => TExit | _ => TAcq end) l dn e q rp kl, RoFn)
-  | TAcq => (mkCfg d TPut (Some PT) dn e q rp kl, RoAcquire)
-  | TPut => (mkCfg d TSet l dn e (q ++ [real_of p]) true kl, RoPut (real_of p))
-  | TSet => (mkCfg d TRel l true e q rp kl, RoSet)
-  | TRel => (mkCfg d TExit None dn e q rp kl, RoRelease)
-  | TExit => (mkCfg d TDead l dn e q rp kl, RoExit)
+  | TFn => (mkCfg d (match p with PayDie => TExit | _ => TAcq end) l dn e q rp kl tm e2 bd, RoFn)
+  | TAcq => (mkCfg d TPut (Some PT) dn e q rp kl tm e2 bd, RoAcquire)
+  | TPut => (mkCfg d TSet l dn e (q ++ [real_of p]) true kl tm e2 bd, RoPut (real_of p))
+  | TSet => (mkCfg d TRel l true e q rp kl tm e2 bd, RoSet)
+  | TRel => (mkCfg d TExit None dn e q rp kl tm e2 bd, RoRelease)
+  | TExit => (mkCfg d TDead l dn e q rp kl false e2 bd, RoExit)
   | TNone | TDead => (c, RoOther)
   end.
 
 (* one scheduler choice; a choice that is not enabled changes nothing *)
-Definition sstep (p : pay) (timed : bool) (c : cfg) (ch : choice) : cfg * list (party * rop) :=
+Definition sstep (p : pay) (timed : bool) (sg : sigr) (c : cfg) (ch : choice) : cfg * list (party * rop) :=
   match ch with
-  | CD => if enabledD timed c then let '(c', o) := stepD c in (c', [(PD, o)]) else (c, [])
+  | CD => if enabledD timed c then let '(c', o) := stepD sg c in (c', [(PD, o)]) else (c, [])
   | CT => if enabledT p c then let '(c', o) := stepT p c in (c', [(PT, o)]) else (c, [])
-  | CX => if timed && negb (c_exp c)
-          then (mkCfg (c_d c) (c_t c) (c_lock c) (c_done c) true (c_q c) (c_rep c) (c_kill c), [(PD, RoExpire)])
-          else (c, [])
+  | CX =>
+      let '(mkCfg d t l dn e q rp kl tm e2 bd) := c in
+      if timed && negb e then (mkCfg d t l dn true q rp kl tm e2 bd, [(PD, RoExpire)])
+      else match d with
+           | DJoinG => if e2 then (c, []) else (mkCfg d t l dn e q rp kl tm true bd, [(PD, RoExpire2)])
+           | _ => (c, [])
+           end
+  | CK =>
+      let '(mkCfg d t l dn e q rp kl tm e2 bd) := c in
+      if tm && negb (t_dead t) then (mkCfg d TDead l dn e q rp kl false e2 bd, [(PT, RoDie)]) else (c, [])
   end.
 
-Fixpoint srun_race (p : pay) (timed : bool) (c : cfg) (s : list choice) : cfg * list (party * rop) :=
+Fixpoint srun_race (p : pay) (timed : bool) (sg : sigr) (c : cfg) (s : list choice)
+  : cfg * list (party * rop) :=
   match s with
   | [] => (c, [])
-  | ch :: r => let '(c1, t1) := sstep p timed c ch in
-               let '(c2, t2) := srun_race p timed c1 r in (c2, t1 ++ t2)
+  | ch :: r => let '(c1, t1) := sstep p timed sg c ch in
+               let '(c2, t2) := srun_race p timed sg c1 r in (c2, t1 ++ t2)
   end.
 
-(* the completion policy after the schedule: D if it can move, else T, else
-   the timeout expires, else stop *)
+(* the completion policy after the schedule: D if it can move, else T, else a
+   pending timeout expires, else a pending delayed death happens, else stop *)
 Definition policy (p : pay) (timed : bool) (c : cfg) : option choice :=
   if enabledD timed c then Some CD
   else if enabledT p c then Some CT
   else if timed && negb (c_exp c) then Some CX
+  else if match c_d c with DJoinG => negb (c_exp2 c) | _ => false end then Some CX
+  else if c_term c && negb (t_dead (c_t c)) then Some CK
   else None.
 
-Fixpoint finish (fuel : nat) (p : pay) (timed : bool) (c : cfg) : cfg * list (party * rop) :=
+Fixpoint finish (fuel : nat) (p : pay) (timed : bool) (sg : sigr) (c : cfg) : cfg * list (party * rop) :=
   match fuel with
   | O => (c, [])
   | S f =>
       match policy p timed c with
       | None => (c, [])
-      | Some ch => let '(c1, t1) := sstep p timed c ch in
-                   let '(c2, t2) := finish f p timed c1 in (c2, t1 ++ t2)
+      | Some ch => let '(c1, t1) := sstep p timed sg c ch in
+                   let '(c2, t2) := finish f p timed sg c1 in (c2, t1 ++ t2)
       end
   end.
 
 Definition race_fuel : nat := 80.
 
-Definition race (p : pay) (timed : bool) (s : list choice) : cfg * list (party * rop) :=
-  let '(c1, t1) := srun_race p timed cinit s in
-  let '(c2, t2) := finish race_fuel p timed c1 in (c2, t1 ++ t2).
+Definition race (p : pay) (timed : bool) (sg : sigr) (s : list choice) : cfg * list (party * rop) :=
+  let '(c1, t1) := srun_race p timed sg cinit s in
+  let '(c2, t2) := finish race_fuel p timed sg c1 in (c2, t1 ++ t2).
 
 Definition finished (c : cfg) : bool :=
   match c_d c, c_t c with DEnd, TDead => true | _, _ => false end.
@@ -167,7 +196,7 @@ Definition feed (q : list rk) : list (Z * Z * bool) :=
 Definition returned_uids (evs : list wev) : list Z :=
   concat (map (fun e => match e with EvResult u _ _ _ _ => [u] | _ => [] end) evs).
 
-Definition race_show (p : pay) (timed : bool) (s : list choice) :=
-  let '(c, t) := race p timed s in
+Definition race_show (p : pay) (timed : bool) (sg : sigr) (s : list choice) :=
+  let '(c, t) := race p timed sg s in
   let '(st, evs, alive) := watcher wst2 (feed (c_q c)) in
-  (t, c_q c, finished c, returned_uids evs, alive, w_cb st).
+  (t, c_q c, finished c, returned_uids evs, alive, w_cb st, c_bad c).
